@@ -7,7 +7,7 @@
    LL(1) parser), [doc_* bs] is the intended document: rows grouped by runs of equal fingerprint. *)
 From Coq Require Import List NArith ZArith Bool Ascii String.
 From Qryn Require Import model.GoFloat model.JsonStream proofs.JsonStreamProofs proofs.JsonSpliceProofs
-  proofs.GoFloatProofs proofs.JsonNumProofs proofs.JsonSeriesProofs proofs.GoMarshalProofs.
+  proofs.GoFloatProofs proofs.JsonNumProofs proofs.JsonSeriesProofs proofs.GoMarshalProofs proofs.GoFloatReadProofs.
 Import ListNotations.
 Open Scope string_scope.
 Open Scope list_scope.
@@ -387,3 +387,34 @@ Theorem gojson_float_is_number : forall bits, fl_finite (fl_of_bits bits) = true
   num_ok (gojson_float_text (fl_of_bits bits)) = true.
 Proof. exact gojson_float_text_num_ok. Qed.
 Print Assumptions gojson_float_is_number.
+
+(* ------------------------------------------------------------------------------------------ *)
+(* number texts read back. [read_fixed] reads  -? digits (. digits)?  as (sign, all digits as one integer, number of
+   fraction digits). The layout is exact: the text of n / 10^k reads back as (n, k) ... *)
+Theorem plain_decimal_reads_back : forall neg n k, (0 <= n)%Z -> read_fixed (fixed_text neg n k) = Some (neg, n, k).
+Proof. exact read_fixed_text. Qed.
+Print Assumptions plain_decimal_reads_back.
+
+(* ... so the 'f' -1 text of a float64 denotes exactly the decimal D * 10^P of value_text_lossless (n / 10^k = D * 10^P):
+   sample values are rendered without loss *)
+Theorem value_text_reads_back : forall neg D P, (0 <= D)%Z ->
+  exists n k, read_fixed (fixed_of_dec neg D P) = Some (neg, n, k) /\
+              (n * 10 ^ Z.max (- P) 0 = D * 10 ^ Z.max P 0 * 10 ^ Z.of_nat k)%Z.
+Proof. exact fixed_of_dec_reads_back. Qed.
+Print Assumptions value_text_reads_back.
+
+(* ... and the %f text of a matrix / scalar timestamp denotes exactly the float64 quotient rounded half-to-even at the
+   sixth decimal (microseconds): what is lost is the rounding of float64(ns)/1e9 itself and the digits after the sixth *)
+Theorem f6_text_reads_back : forall neg m e, (0 <= m)%Z ->
+  read_fixed (f6_text (FFin neg m e)) =
+  Some (neg, round_half_even (m * 1000000 * 2 ^ Z.max e 0) (2 ^ Z.max (- e) 0), 6%nat).
+Proof. exact f6_reads_back. Qed.
+Print Assumptions f6_text_reads_back.
+Example f6_reads_back_met :   (* 1700000000.123456789 s: the float64 quotient is 1700000000.1234567165..., printed to the microsecond *)
+  ts_seconds 1700000000123456789 = FFin false 7130316800517815 (-22) /\
+  read_fixed (f6_text (ts_seconds 1700000000123456789)) = Some (false, 1700000000123457%Z, 6%nat).
+Proof. split; vm_compute; reflexivity. Qed.
+
+(* the keep-alive frame of the Tail websocket is the Tail frame of no rows *)
+Example tail_keepalive_frame : render (enc_tail cur_hdr []) = "{""streams"":[]}".
+Proof. vm_compute. reflexivity. Qed.
